@@ -13,6 +13,7 @@ import (
 	"strings"
 
 	netty "github.com/go-netty/go-netty"
+	"github.com/go-netty/go-netty/transport"
 	"github.com/go-netty/go-netty/zz_verif/explore"
 	"github.com/go-netty/go-netty/zz_verif/hlib"
 	"github.com/go-netty/go-netty/zz_verif/mock"
@@ -151,6 +152,8 @@ const (
 	// not closers: how the application's handlers treat the read failure
 	kWrap    = "codecWrapsError"
 	kConsume = "exceptionConsumed"
+	// not a closer: the channel runs over the library's read+write buffering wrapper (whose Close flushes)
+	kBuffered = "bufferedTransport(16,16)"
 	// not a closer: the application's inactive handler panics (after recording the event)
 	kInactPanic = "inactiveHandlerPanics"
 )
@@ -204,7 +207,12 @@ func scenario(cfg hlib.ChanCfg, kinds []string, bound int) *explore.Scenario {
 			}
 			e.PL = netty.NewPipeline()
 			e.PL.AddLast(holder, p)
-			e.Ch = cfg.Factory()(1, parent, e.PL, e.T, netty.AsyncExecutor())
+			var tr transport.Transport = e.T
+			if has(kBuffered) {
+				e.T.Wrapped = true
+				tr = transport.NewTransport(e.T, 16, 16)
+			}
+			e.Ch = cfg.Factory()(1, parent, e.PL, tr, netty.AsyncExecutor())
 			e.PL.ServeChannel(e.Ch)
 			o.served = vsched.X.Steps()
 			var ths []*vsched.Thread
@@ -410,6 +418,7 @@ func build(tier string) []*explore.Scenario {
 		{kUser1, kInactPanic}, {kPeer, kInactPanic}, {kOnRead, kInactPanic},
 		{kReset}, {kReset, kWrap}, {kReset, kConsume}, {kReset, kWrap, kConsume}, {kReset, kWrap, kConsume, kUser1},
 		{kPeer, kConsume}, {kPeer, kConsume, kUser1}, {kReset, kConsume, kWFail},
+		{kUser1, kBuffered}, {kUser1, kWFail, kBuffered}, {kPeer, kWFail, kBuffered}, {kOnRead, kBuffered},
 	}
 	if tier == "thorough" {
 		sets = append(sets, []string{kUser1, kUser2, kHolder}, []string{kOnRead, kWFail, kUser1}, []string{kParent, kHolder}, []string{kOnAct, kHolder, kUser1})
